@@ -1,5 +1,5 @@
 # C11 (b)+(c): the state-file replace protocol under injected faults (strace), and damaged state files.
-import os, re, shutil, json, subprocess
+import os, re, shutil, json, subprocess, struct
 import vcommon as V
 
 NAME = "out.colvars.state"
@@ -7,7 +7,9 @@ TRACE = "trace=access,rename,openat,write,writev,close"
 SIG_SINGLE = "statefile.single-crash-no-complete-state"
 SIG_DOUBLE = "statefile.crash-restart-crash-no-complete-state"
 SIG_IGNERR = "statefile.ignored-io-error-then-crash-no-complete-state"
-SIG_SILENT = "statefile.save-reports-ok-on-truncated-file"
+SIG_REPORTED = "statefile.save-after-reported-error-then-crash-no-complete-state"
+SIG_SILENT = "statefile.save-reports-ok-on-incomplete-file"
+SIG_BACKUPNAME = "statefile.backup-not-loadable-under-its-own-name"
 
 CONFIG = """colvar {
   name d
@@ -36,7 +38,7 @@ harmonic {
 
 def scenario(sess, name=NAME, distinct=False):
     """sess = {"first": step number to start from, "pre": steps before the first save, "saves": ["text"|"binary", ...]}"""
-    L = ["natoms 2", "new", "config EOF"] + CONFIG.strip("\n").split("\n") + ["EOF",
+    L = ["unbuffered", "natoms 2", "new", "config EOF"] + CONFIG.strip("\n").split("\n") + ["EOF",
          "show cv 0 atomf 0 energy 0 bias 0", "setstep %d" % sess["first"], "pos 1 0 0 1.25"]
     L += ["step"] * sess["pre"]
     for i, mode in enumerate(sess["saves"]):
@@ -119,6 +121,10 @@ class Dir:
                 open(p, "wb").write(files[k])
 
 
+class Unrealizable(Exception):
+    pass
+
+
 def run_session(vsim, d, sess, plan):
     """run one process under strace with the fault plan (list of 'o' | 'e' | 'k<j>' per relevant syscall).
     Faults are placed one at a time: the position of each is looked up in the trace obtained with the
@@ -141,17 +147,44 @@ def run_session(vsim, d, sess, plan):
         if i >= len(rel):
             break        # the process never gets that far (stuck stream, earlier death)
         r = rel[i]
+        if any(x.startswith("inject=%s:" % r["sys"]) for x in inject):
+            # strace keeps one injection per syscall name: a plan with two faults on the same syscall cannot be realised
+            raise Unrealizable("two faults on %s" % r["sys"])
         if p == "e":
             inject.append("inject=%s:error=%s:when=%d" % (r["sys"], ERRNO[r["op"]], r["occ"]))
         else:
             inject.append("inject=%s:signal=SIGKILL:when=%d" % (r["sys"], r["occ"]))
     killed = rc < 0 or rc >= 128
-    res = None if killed else ["ok" if l.strip() == "SAVE err=ok" else "err" for l in out.split("\n") if l.startswith("SAVE")]
+    # the SAVE lines printed so far (the scenario makes stdout unbuffered, so they survive a kill)
+    pres = ["ok" if l.strip() == "SAVE err=ok" else "err" for l in out.split("\n") if l.startswith("SAVE err=")]
+    res = None if killed else pres
     for f in ("s.scn", "trace.txt"):
         p = os.path.join(d.path, f)
         if os.path.exists(p):
             os.remove(p)
+    LAST_PARTIAL[0] = pres
     return rel, res, rc
+
+
+LAST_PARTIAL = [[]]
+
+
+def classify_errors(sessions, impl_desc):
+    """which injected error returns did the code act on?  ignored = the save went on as if nothing had happened
+    (after a failed access/rename it still opened the file; or it said SAVE err=ok), reported = the save said err"""
+    ignored, reported = [], []
+    for (s_, p_), dsc in zip(sessions, impl_desc):
+        tr = dsc["trace"].split(",") if dsc["trace"] else []
+        results = dsc.get("partial_results") or []
+        for i, x in enumerate(p_):
+            if x != "e" or i >= len(tr):
+                continue
+            op = tr[i][0]
+            si = sum(1 for t in tr[:i + 1] if t.startswith("A")) - 1
+            goes_on = op in "AR" and i + 1 < len(tr) and not tr[i + 1].startswith("A")
+            said_ok = 0 <= si < len(results) and results[si] == "ok"
+            (ignored if (goes_on or said_ok) else reported).append(op)
+    return ignored, reported
 
 
 _REF = {}
@@ -250,22 +283,32 @@ def complete_versions(files, refs_by_ver):
     return out
 
 
-def try_load(vsim, d, fname):
-    # (set_input_prefix() strips ".colvars.state" from the middle of "<name>.colvars.state.old", so the backup
-    # is loaded through a copy with a plain name, as a user would have to do)
-    tmp = None
-    if fname.endswith(".old"):
-        tmp = os.path.join(d.path, "backup_copy.colvars.state")
-        shutil.copy(os.path.join(d.path, fname), tmp)
-        fname = "backup_copy.colvars.state"
+def try_load_(vsim, d, fname):
     scn = os.path.join(d.path, "l.scn")
     open(scn, "w").write(load_scenario(fname))
-    rc, out, err = V.sh(["timeout", "-s", "KILL", "20", vsim, scn], cwd=d.path, timeout=60)
+    rc, out, err = V.sh(["timeout", "-s", "KILL", "20", vsim, scn], cwd=d.path, timeout=60,
+                        env={"ASAN_OPTIONS": "abort_on_error=1:detect_leaks=0", "UBSAN_OPTIONS": "halt_on_error=1:abort_on_error=1"})
     os.remove(scn)
-    if tmp:
-        os.remove(tmp)
     m = re.search(r"LOAD err=(\S+) it=(-?\d+)", out)
     return rc, (m.group(1), int(m.group(2))) if m else None
+
+
+def try_load(vsim, d, fname, run=None, label=""):
+    """load a state by its file name; the ".old" backup is loaded under its own name, and, when that is refused, through
+    a copy with a plain name: a backup that only loads through the copy is reported (set_input_prefix used to strip
+    ".colvars.state" from the middle of "<name>.colvars.state.old")"""
+    rc, ld = try_load_(vsim, d, fname)
+    if not fname.endswith(".old") or rc != 0 or (ld and ld[0] == "ok"):
+        return rc, ld
+    tmp = os.path.join(d.path, "backup_copy.colvars.state")
+    shutil.copy(os.path.join(d.path, fname), tmp)
+    rc2, ld2 = try_load_(vsim, d, "backup_copy.colvars.state")
+    os.remove(tmp)
+    if run is not None and rc2 == 0 and ld2 and ld2[0] == "ok":
+        run.violation(SIG_BACKUPNAME, "after %s the backup %s is refused under its own name (LOAD err=%s) although a copy of it "
+                      "named backup_copy.colvars.state loads (it=%d)" % (label, fname, ld[0] if ld else "?", ld2[1]),
+                      {"kind": "load-name", "file": fname, "label": label})
+    return rc2, ld2
 
 
 def run_case(run, model, vsim, d, case, quick):
@@ -308,8 +351,17 @@ def run_case(run, model, vsim, d, case, quick):
         mparts.append(mp)
         mm = re.match(r"results=(\S*) trace=(\S*) (cur:\S+ old:\S+) safe=(\w+) reg=(\S+)", mp)
         desc = {"trace": trace_str(rel), "results": res, "cur": obs["cur"] if obs["cur"] == "-" else list(obs["cur"]),
-                "old": obs["old"] if obs["old"] == "-" else list(obs["old"]), "rc": rc}
+                "old": obs["old"] if obs["old"] == "-" else list(obs["old"]), "rc": rc, "partial_results": list(LAST_PARTIAL[0])}
         impl_desc.append(desc)
+        # oracle on the implementation alone: a save that says ok has left the complete new state under the name
+        if res and res[-1] == "ok":
+            want = refs_by_ver.get(version_of(sess, len(res) - 1))
+            if want is not None and files["cur"] != want:
+                ops = [trace_str(rel).split(",")[i][0] for i, x in enumerate(plan) if x == "e" and i < len(rel)]
+                run.violation(SIG_SILENT + ":" + "".join(sorted(set(ops))),
+                              "with the fault plan %s the last save says SAVE err=ok but %s holds %s bytes of the %d-byte state"
+                              % (case["label"], NAME, "no" if files["cur"] is None else len(files["cur"]), len(want)),
+                              {"kind": "crash", "case": case, "impl": impl_desc})
         if not mm:
             pending.append(({"model_case": mline}, desc, mp))
             ok_all = False
@@ -347,7 +399,7 @@ def run_case(run, model, vsim, d, case, quick):
     loadable = []
     for k, n in (("cur", NAME), ("old", NAME + ".old")):
         if files[k] is not None:
-            rc, ld = try_load(vsim, d, n)
+            rc, ld = try_load(vsim, d, n, run, case["label"])
             if rc >= 128 or rc == 124 or rc < 0:
                 run.violation("load.crash", "loading %s left by the fault plan %s kills the process (rc=%d)" % (n, case["label"], rc),
                               {"kind": "crash", "case": case, "file": n})
@@ -359,15 +411,13 @@ def run_case(run, model, vsim, d, case, quick):
     run.dist("protocol:" + case["kind"])
     if completed_before and not loadable:
         plans = [p for s, p in sessions]
-        has_err = any(x == "e" for p in plans for x in p)
         nkill = sum(1 for p in plans for x in p if x.startswith("k"))
         sig = SIG_DOUBLE if nkill >= 2 else SIG_SINGLE
-        if has_err:
-            ops = []
-            for (s_, p_), dsc in zip(sessions, impl_desc):
-                tr = dsc["trace"].split(",")
-                ops += [tr[i][0] for i, x in enumerate(p_) if x == "e" and i < len(tr)]
-            sig = SIG_IGNERR + ":" + "".join(sorted(set(ops)))
+        ignored, reported = classify_errors(sessions, impl_desc)
+        if ignored:
+            sig = SIG_IGNERR + ":" + "".join(sorted(set(ignored)))
+        elif reported:
+            sig = SIG_REPORTED
         run.violation(sig, "after a state had been completed, the fault plan %s leaves neither %s nor %s.old complete and loadable: %s"
                       % (case["label"], NAME, NAME, json.dumps(impl_desc[-1])[:300]),
                       {"kind": "crash", "case": case, "model_case": mline, "impl": impl_desc, "model": mparts})
@@ -413,10 +463,17 @@ def run_crash(run, model, vsim, quick):
     cases.append({"kind": "witness", "label": "C11_crash_consistent_refuted:kill-in-save-2,restart,kill-after-rename",
                   "sessions": [(s12, ["o"] * 7 + ["k0"]), (s3, ["o", "o", "k0"])]})
     s123 = {"first": 0, "pre": 3, "saves": ["text", "text", "text"]}
-    cases.append({"kind": "witness", "label": "C11_error_path_refuted(i):ENOSPC-at-close-ignored,next-save-killed-after-rename",
+    cases.append({"kind": "witness", "label": "C11_error_tolerant_continuing_refuted:ENOSPC-in-the-last-write-of-save-2,save-3-killed-after-its-rename",
                   "sessions": [(s123, ["o"] * 7 + ["e", "o", "o", "o", "k0"])]})
-    cases.append({"kind": "witness", "label": "C11_error_path_refuted(ii):rename-error-ignored,kill-in-write",
-                  "sessions": [(s12, ["o"] * 5 + ["e", "o", "k0"])]})
+    # the two former witnesses of ignored error returns (repaired by fix: commits; must stay safe)
+    cases.append({"kind": "witness", "label": "rename-error-in-save-2,kill-in-the-write-that-follows",
+                  "sessions": [(s123, ["o"] * 5 + ["e", "o", "o", "k0"])]})
+    # (on a tree where the failed rename is ignored the next two calls are the open and the write of the same save;
+    # on the repaired tree they are the access and the rename of save 3: two faults on rename, skipped as unrealisable)
+    cases.append({"kind": "witness", "label": "rename-error-in-save-2,kill-two-calls-later",
+                  "sessions": [(s123, ["o"] * 5 + ["e", "o", "k0"])]})
+    cases.append({"kind": "witness", "label": "ENOSPC-in-the-last-write-of-save-2,no-further-save,kill-free",
+                  "sessions": [(s12, ["o"] * 7 + ["e"])]})
     # 4. random two-fault plans over two processes
     for j in range(6 if quick else 80):
         p1 = ["o"] * r.randint(4, 12) + [r.choice(["k0", "e"])]
@@ -426,11 +483,24 @@ def run_crash(run, model, vsim, quick):
         cases.append({"kind": "random-two-fault", "label": "random%d" % j, "sessions": [(sa, p1), (sb, p2)]})
     nmis = 0
     for c in cases:
-        ok, impl_desc, mparts = run_case(run, model, vsim, d, c, quick)
+        try:
+            ok, impl_desc, mparts = run_case(run, model, vsim, d, c, quick)
+        except Unrealizable as ex:
+            run.dist("protocol:skipped-unrealizable-plan")
+            continue
         if c["kind"] == "witness":
             run.sample({"witness": c["label"], "impl": impl_desc, "model": mparts})
     run.cov["correspondence"]["protocol_cases"] = len(cases)
-    run_damage(run, vsim, d, quick)
+    load_exe = vsim
+    if not quick:
+        # thorough tier: the load search runs a build with AddressSanitizer + UBSan (-fno-sanitize-recover): an
+        # out-of-bounds access or undefined behaviour on a damaged file aborts the process and is reported as a crash
+        try:
+            load_exe = V.build_prog("vsim", ["harness/vsim_main.cpp"], "asan")
+            run.notes.append("load search run with the asan variant of vsim")
+        except Exception as ex:
+            run.notes.append("asan build failed, load search used the plain build: %s" % str(ex)[-200:])
+    run_damage(run, load_exe, d, quick, model)
 
 
 # ---------------------------------------------------------------------------------------------------
@@ -462,7 +532,25 @@ def top_level_blocks(text):
     return out
 
 
-def run_damage(run, vsim, d, quick):
+KEYWORDS = {"configuration": 0, "colvar": 1, "name": 2, "hill": 3, "x": 4}
+
+
+def tx_line(text):
+    """the case line for the text-reader model (coq/C11/StateReadModel.v): the configured objects of CONFIG and the
+    white-space separated words of the (damaged) file; words are numbered, the reader's own keywords have fixed numbers"""
+    ids = dict(KEYWORDS)
+
+    def wid(w):
+        if w not in ids:
+            ids[w] = 100 + len(ids)
+        return ids[w]
+    cfg = "cv:%d b:%d.%d.%d.0,%d.%d.%d.1" % (wid("d"), wid("restraint"), wid("harmonic"), wid("h"),
+                                               wid("metadynamics"), wid("metadynamics"), wid("m"))
+    toks = [w if w in ("{", "}") else str(wid(w)) for w in text.split()]
+    return "TX %s t:%s" % (cfg, ",".join(toks) or "-")
+
+
+def run_damage(run, vsim, d, quick, model=None):
     r = V.rng("C11damage")
     sess = {"first": 0, "pre": 6, "saves": ["text", "binary"]}
     refs, chunking, rel = reference(vsim, d, sess)
@@ -485,6 +573,10 @@ def run_damage(run, vsim, d, quick):
         if rc != 0 or not ld or ld[0] != "ok" or ld[1] != v:
             run.violation("load.valid-state-rejected", "a freshly written %s state does not load (rc=%d, %s)" % (nm, rc, ld),
                           {"kind": "load", "format": nm, "cut": len(data), "scenario": scenario(sess, distinct=True)})
+    # where the hill records of the binary state start (8-byte length 4 + "hill")
+    pat = struct.pack("<Q", 4) + b"hill"
+    hill_starts = [m.start() for m in re.finditer(re.escape(pat), binary)]
+    text_verdicts = []
     for nm, data in (("text", text), ("binary", binary)):
         n = len(data)
         if quick:
@@ -494,6 +586,8 @@ def run_damage(run, vsim, d, quick):
                     offs |= {a, a + 1, b - 1, b, b + 1, (a + b) // 2}
             else:
                 offs |= set(range(max(0, n - 24), n))
+                for h in hill_starts[:2] + hill_starts[-1:]:
+                    offs |= set(range(h, h + 14))
         else:
             offs = set(range(n))
         for cut in sorted(o for o in offs if 0 <= o < n):
@@ -507,6 +601,7 @@ def run_damage(run, vsim, d, quick):
                               {"kind": "load", "format": nm, "cut": cut, "scenario": scenario(sess, distinct=True)})
                 continue
             if nm == "text":
+                text_verdicts.append((cut, "ok" if ld[0] == "ok" else "err"))
                 inside = [kw for a, b, kw in obj_blocks if a < cut <= b]
                 if inside and ld[0] == "ok":
                     stats["text_cut_in_block_accepted"] += 1
@@ -516,8 +611,27 @@ def run_damage(run, vsim, d, quick):
             else:
                 if ld[0] == "ok" and cut > 4:
                     stats["binary_prefix_accepted"] += 1
-                    run.violation("load.binary-prefix-accepted", "a binary state cut at byte %d of %d loads without any error" % (cut, n),
-                                  {"kind": "load", "format": nm, "cut": cut, "scenario": scenario(sess, distinct=True)})
+                    if cut in hill_starts:
+                        # the format has neither a hill count nor an end marker: a file that stops between two hills of the
+                        # last bias is a well-formed file with fewer hills
+                        run.violation("load.binary-prefix-accepted:at-hill-boundary",
+                                      "a binary state cut at byte %d of %d, exactly where a hill record of the last bias starts, loads without any error (%d of %d hills)"
+                                      % (cut, n, hill_starts.index(cut), len(hill_starts)),
+                                      {"kind": "load", "format": nm, "cut": cut, "scenario": scenario(sess, distinct=True)})
+                    else:
+                        run.violation("load.binary-prefix-accepted", "a binary state cut at byte %d of %d loads without any error" % (cut, n),
+                                      {"kind": "load", "format": nm, "cut": cut, "scenario": scenario(sess, distinct=True)})
+        if nm == "text" and model is not None and text_verdicts:
+            # tie of the text-reader model (c): error / no error for every prefix explored
+            lines = [tx_line(data[:cut].decode("latin1")) for cut, _ in text_verdicts]
+            rcm, mout, em = V.run_lines(model, lines, timeout=600)
+            ndis = 0
+            for (cut, verdict), mo in zip(text_verdicts, mout + ["<none>"] * (len(lines) - len(mout))):
+                if mo.strip() != verdict:
+                    ndis += 1
+                    run.mismatch("text-reader-tie", {"cut": cut, "of": n, "tail": data[max(0, cut - 30):cut].decode("latin1")}, verdict, mo.strip())
+            stats["text_reader_model_cases"] = len(lines)
+            stats["text_reader_model_disagreements"] = ndis
         flips = [(r.randrange(n), r.randrange(8)) for j in range(60 if quick else 5000)]
         if nm == "text":
             # aimed: every byte of the configuration block (step, dt, version, units and the separators)
@@ -549,6 +663,13 @@ def replay(rp, vsim, model):
         print("impl :", json.dumps(impl_desc))
         print("model:", mparts)
         print("files left in", d.path, {k: (len(v) if v is not None else None) for k, v in d.files().items()})
+    elif rp["kind"] == "load-name":
+        sess = {"first": 0, "pre": 3, "saves": ["text", "text"]}
+        rel, res, rc = run_session(vsim, d, sess, [])
+        print("two saves:", res, {k: (len(v) if v is not None else None) for k, v in d.files().items()})
+        print("load %s.old under its own name:" % NAME, try_load_(vsim, d, NAME + ".old"))
+        shutil.copy(os.path.join(d.path, NAME + ".old"), os.path.join(d.path, "backup_copy.colvars.state"))
+        print("load a copy named backup_copy.colvars.state:", try_load_(vsim, d, "backup_copy.colvars.state"))
     else:
         sess = {"first": 0, "pre": 6, "saves": ["text", "binary"]}
         refs, chunking, rel = reference(vsim, d, sess)
